@@ -270,6 +270,9 @@ def _world_col(at, arr, dt):
     frame, name = at[0], at[1]
     mode = at[2] if len(at) > 2 else 0
     df = _world_frame(frame)
+    # the names collide WITHIN a history as the case says; they are unique ACROSS the histories a worker runs on its one
+    # Session, so that a history (and every shrunk form of it) behaves in a used worker as it does in a fresh process
+    name = '%s_%d' % (name, _W['gen'])
     old = _W['cols'].get((frame, name))
     content = (dt, arr.tolist())
     if old is not None:
